@@ -720,6 +720,13 @@ class Engine:
         raise OutsideSubset(f"unbound name {name}")
 
     def ev_Name(self, node, st):
+        locs = st.env.get("__locals__")
+        if locs is not None and node.id in locs.obj and node.id not in st.env and not any(node.id in f for f in st.bound) \
+                and not (st.spec or st.nofork):
+            # a local that is assigned somewhere in the function but not on this path: Python raises UnboundLocalError
+            st.note(f"raises UnboundLocalError: {node.id}")
+            self.raise_exc(st, self.new_exc(UnboundLocalError, st))
+            return
         v = self.lookup(node.id, st)
         if isinstance(v, SVal) and v.origin is None and _container(v.ty) and node.id in st.env:
             pass
@@ -1096,6 +1103,9 @@ class Engine:
         ty = c.ty
         if isinstance(ty, TList):
             xv = self.coerce(x, ty.elem, st)
+            fm = getattr(self, "flatmaps", {}).get(c.t.get_id())
+            if fm is not None:
+                return z3.substitute(fm[1], (fm[0], xv.t))
             return self.seq_member(c.t, xv.t)
         if isinstance(ty, TSet):
             return z3.Select(c.t, self.coerce(x, ty.elem, st).t)
@@ -1435,7 +1445,7 @@ def _spec_implies(a, b):
     raise RuntimeError
 
 
-SPEC_BUILTINS = {"raised_by": "raised_by", "exc_code": "exc_code", "implies": "implies", "old": "old", "ANY": "ANY", "store": "store", "fresh_obj": "fresh_obj",
+SPEC_BUILTINS = {"utf8": "utf8", "decode_utf8": "decode_utf8", "decodable": "decodable", "raised_by": "raised_by", "exc_code": "exc_code", "implies": "implies", "old": "old", "ANY": "ANY", "store": "store", "fresh_obj": "fresh_obj",
                  "raised": "raised", "iff": "iff", "unchanged": "unchanged", "ite": "ite", "seq_index_of": "seq_index_of",
                  "distinct": "distinct", "field_unchanged_except": "field_unchanged_except", "none": "none",
                  "some": "some", "typed_empty": "typed_empty", "dom": "dom", "lookup": "lookup", "sorted_of": "sorted_of",
